@@ -279,6 +279,11 @@ class Case(dict):
     pass
 
 
+def bop(c):
+    """the call form without the in-place marker (`op@i`: the output is the object passed as input i)"""
+    return c.get("bop", c["iop"])
+
+
 def mk(iop, iargs, kind, **kw):
     c = Case(iop=iop, iargs=[int(x) for x in iargs], kind=kind)
     c.update(kw)
@@ -517,6 +522,144 @@ def have_prim_inv():
 
 def have_lambda_primpow():
     return _HAVE.get("lambda_primpow", False)
+
+
+# ------------------------------------------------------------------------------------------------ in-place calls
+# Every function of the property with an output parameter is called with the output being THE SAME OBJECT as each input in
+# turn (harness: `op@i` first output = input i, `op@@i` second output = input i, i = 9: the modulus object pk), on a deterministic
+# grid (primes, prime powers, 2^k, composites with 2..4 prime powers; residues and non-residues).  The result must satisfy the
+# oracle for the ORIGINAL arguments, equal the model (whose functions are three-address by construction) and, for the
+# deterministic functions, equal the result of the call with distinct objects.
+INPLACE = {
+    "sqrootmod": ("@0", "@1"), "sqrootmodprime": ("@0", "@1"), "sqrootmodprimepower": ("@0", "@1", "@9"), "sqrootmodpoweroftwo": ("@0", "@9"),
+    "brillhart": ("@0", "@@0"),
+    "sumofsquares": ("@0", "@1", "@@0", "@@1"), "sumofsquares.det": ("@0", "@1", "@@0", "@@1"), "sumofsquares.mc": ("@0", "@1", "@@0", "@@1"),
+    "sumofsquares.noerh": ("@0", "@1", "@@0", "@@1"), "sumofsquares.nonres": ("@0", "@1", "@2", "@@0", "@@1", "@@2"),
+    "order": ("@0", "@1"), "prim_root": ("@0",), "prim_root.runs": ("@0",), "lowest_prim_root": ("@0",),
+    "prim_root_of_prime": ("@0",), "prim_root_of_prime.L": ("@0",),
+    "probable_prim_root.L": ("@0",), "probable_prim_root.default": ("@0",), "probable_prim_root.eps": ("@0",),
+    "prim_inv": ("@0",), "prim_elem": ("@0",), "lambda": ("@0",), "lambda_inv": ("@0",), "lambda_primpow": ("@0",), "lambda_inv_primpow": ("@0",),
+    "phi": ("@0",), "phiL.list": ("@0",), "phiL.vector": ("@0",),
+    "sqrt.ra": ("@0",), "sqrtrem.rar": ("@0", "@@0"), "sqrtrem.ar": ("@@0",), "root": ("@0",),
+    "gcd": ("@0", "@1"), "powmod": ("@0", "@1", "@2"), "inv": ("@0", "@1"), "mod": ("@0", "@1"),
+}
+# the functions whose result does not depend on a random choice: in-place result == distinct-objects result, token for token
+INPLACE_EXACT = {"phi", "phiL.list", "phiL.vector", "order", "lambda", "lambda_inv", "lambda_primpow", "lambda_inv_primpow", "lowest_prim_root",
+                 "prim_root_of_prime", "prim_root_of_prime.L", "sqrootmodpoweroftwo", "brillhart", "sqrt.ra", "sqrtrem.rar", "sqrtrem.ar", "root",
+                 "gcd", "powmod", "inv", "invin", "mod"}
+IP = {"counts": {}}
+
+
+def gen_inplace(C, rng, th):
+    n0 = len(C)
+    IP["counts"] = {}
+    base = []
+
+    def add(iop, iargs, kind, **kw):
+        base.append(mk(iop, iargs, kind, gen="inplace", **kw))
+    big = [2 ** 61 - 1, 3 * 2 ** 66 + 1]
+    primes = [2, 3, 5, 7, 13, 17, 41, 97, 257, 65537] + big
+    ppow = [(3, 2), (3, 3), (3, 4), (3, 5), (5, 2), (5, 3), (7, 2), (17, 2), (13, 3), (3, 40), (1000003, 2), (1000003, 7), (97, 1), (41, 1)]
+    two = [1, 2, 3, 4, 5, 6, 10, 29, 30, 33, 64, 77]
+    comps = {6: {2: 1, 3: 1}, 10: {2: 1, 5: 1}, 12: {2: 2, 3: 1}, 15: {3: 1, 5: 1}, 36: {2: 2, 3: 2}, 60: {2: 2, 3: 1, 5: 1}, 90: {2: 1, 3: 2, 5: 1},
+             210: {2: 1, 3: 1, 5: 1, 7: 1}, 864: {2: 5, 3: 3}, 1155: {3: 1, 5: 1, 7: 1, 11: 1}, 44100: {2: 2, 3: 2, 5: 2, 7: 2},
+             2 ** 40 * 3 ** 20 * 1000003: {2: 40, 3: 20, 1000003: 1}, 4 * 1000003 ** 3 * 101 ** 2: {2: 2, 1000003: 3, 101: 2}}
+    mods = {}
+    for q in primes:
+        mods[q] = {q: 1}
+    for q, k in ppow:
+        mods[q ** k] = {q: k}
+    for k in two:
+        mods[2 ** k] = {2: k}
+    mods.update(comps)
+    for n, F in mods.items():
+        _FC[n] = dict(F)
+
+    def avals(n):
+        if n <= 40:
+            return list(range(0, n)) + [n + 4, -3]
+        return sorted({0, 1, 2, 3, 4, 5, 6, 9, 16, n - 1, n - 4, 49 % n, 123457 ** 2 % n, (123457 ** 2 * 4) % n, 3 * 123457 ** 2 % n, n + 4, -3,
+                       (n - 1) // 2, 8 * 123457 + 1})
+    for n, F in mods.items():
+        for a in avals(n):
+            add("sqrootmod", [a, n], "sqrtn", a=a, n=n, F=F)
+        if n >= 2:
+            for f in ("lambda", "lambda_inv", "prim_elem") + (("prim_inv",) if have_prim_inv() else ()):
+                add(f, [n], f, n=n, nomodel=n.bit_length() > 140)
+        add("phi", [n], "phi", n=n)
+        Lf = sorted(F, reverse=True)
+        add("phiL.list", [n] + Lf, "phi", n=n, Lf=Lf)
+        add("phiL.vector", [n] + Lf[::-1], "phi", n=n, Lf=Lf[::-1])
+        for a in (2, 3, 5, 7, n - 1, n + 1, 10, 2 * n + 3):
+            if n >= 2:
+                add("order", [a, n], "order", a=a, n=n, nomodel=n.bit_length() > 100)
+    for n in (0, 1, 2, 3):
+        add("phi", [n], "phi", n=n)
+    for q in primes:
+        for a in avals(q):
+            add("sqrootmodprime", [a, q], "sqrtp", a=a, p=q, k=1)
+        if q % 4 == 1:
+            add("brillhart", [q], "brillhart", p=q)
+        if q > 2:
+            for kk in (0, 1, 2, 3, q - 1, -1, 5, q + 2, -q - 3):
+                for v in ("sumofsquares", "sumofsquares.det", "sumofsquares.mc", "sumofsquares.noerh"):
+                    add(v, [kk, q], "sos", k=kk, p=q, nomodel=q.bit_length() > 64)
+            if q < 100:
+                for sn in range(2, q):
+                    if pow(sn, (q - 1) // 2, q) == q - 1 and pow(sn - 1, (q - 1) // 2, q) == 1:
+                        for kk in range(1, q):
+                            if pow(kk, (q - 1) // 2, q) == q - 1:
+                                add("sumofsquares.nonres", [kk, sn, q], "sos", k=kk, p=q, s=sn)
+                                break
+            add("prim_root_of_prime", [q], "prim_root_of_prime", n=q, nomodel=q.bit_length() > 64)
+            add("prim_root_of_prime.L", [q] + sorted(factor(q - 1)), "prim_root_of_prime", n=q, nomodel=q.bit_length() > 64)
+        if 2 < q < 400:
+            for v in ("probable_prim_root.L", "probable_prim_root.default", "probable_prim_root.eps"):
+                add(v, [q] + ([50] if v.endswith(".L") else []), "probable_prim_root", n=q)
+    for q, k in ppow:
+        for a in avals(q ** k) + [q, q * q * 4, q ** k - q * q]:
+            add("sqrootmodprimepower", [a, q, k], "sqrtpk", a=a, p=q, k=k, nomodel=(q ** k).bit_length() > 140)
+    for k in two:
+        for a in avals(2 ** k) + [64, 2 ** k - 64, 17 * 16]:
+            add("sqrootmodpoweroftwo", [a, k], "sqrt2k", a=a, k=k)
+    for n in (2, 3, 4, 5, 7, 8, 9, 10, 12, 13, 14, 16, 17, 18, 25, 27, 41, 50, 54, 81, 97, 98, 250, 257, 1093 ** 2, 65537, 2 * 3 ** 40):
+        if n not in _FC:
+            factor(n)
+        add("prim_root", [n], "prim_root", n=n)
+        add("prim_root.runs", [n], "prim_root", n=n)
+        if n <= 700:
+            add("lowest_prim_root", [n], "lowest_prim_root", n=n)
+    for n in (15, 21, 24, 100):
+        add("lowest_prim_root", [n], "lowest_prim_root", n=n)
+    for q, e in ((2, 1), (2, 2), (2, 3), (2, 4), (2, 7), (2, 66), (3, 1), (3, 4), (65537, 2), (2 ** 61 - 1, 2)):
+        _FC[q ** e] = {q: e}
+        add("lambda_inv_primpow", [q, e], "lambda_inv_primpow", p=q, e=e)
+        if have_lambda_primpow():
+            add("lambda_primpow", [q, e], "lambda_primpow", p=q, e=e)
+    for a in (0, 1, 2, 15, 16, 17, 2 ** 64 - 1, 2 ** 64, 2 ** 64 + 1, 2 ** 128 - 1, 2 ** 128, 3 ** 100):
+        add("sqrt.ra", [a], "isqrt", a=a)
+        add("sqrtrem.rar", [a], "isqrtrem", a=a)
+        add("sqrtrem.ar", [a], "isqrtrem", a=a)
+        for e in (1, 2, 3, 7):
+            add("root", [a, e], "iroot", a=a, e=e)
+    for a, b in ((12, 18), (18, 12), (0, 5), (5, 0), (17, 17), (2 ** 64, 6 ** 40), (3 * 2 ** 66 + 1, 2 ** 61 - 1), (-12, 18), (35, -14)):
+        add("gcd", [a, b], "h_gcd", a=a, b=b)
+    for a, e, n in ((2, 10, 1000), (3, 0, 7), (5, 3, 5), (7, 7, 7), (2, 2 ** 61 - 2, 2 ** 61 - 1), (10, 20, 3 ** 40), (6, 5, 6), (-3, 3, 10), (2, 64, 2 ** 64 + 1)):
+        add("powmod", [a, e, n], "h_powmod", a=a, e=e, n=n)
+    for a, n in ((3, 7), (7, 3), (5, 12), (2, 2 ** 61 - 1), (2 ** 61 - 2, 2 ** 61 - 1), (10, 3 ** 40), (1, 2), (9, 10)):
+        add("inv", [a, n], "h_inv", a=a, n=n)
+    for a, n in ((17, 5), (5, 17), (5, 5), (0, 9), (2 ** 70 + 3, 2 ** 64), (3, 2 ** 64), (-7, 5)):
+        add("mod", [a, n], "h_mod", a=a, n=n)
+    for c in base:
+        forms = INPLACE.get(c["iop"])
+        if not forms:
+            continue
+        C.append(c)
+        for sfx in forms:
+            d = Case(c); d["bop"] = c["iop"]; d["iop"] = c["iop"] + sfx; d["inplace"] = sfx
+            C.append(d)
+            IP["counts"][d["iop"]] = IP["counts"].get(d["iop"], 0) + 1
+    IP["total"] = len(C) - n0
 
 
 def gen_cases(rng, tier, have):
@@ -807,6 +950,7 @@ def gen_cases(rng, tier, have):
             if a >= 0:
                 C.append(mk("root", [a, e], "iroot", a=a, e=e))
     gen_structured(C, rng, th)
+    gen_inplace(C, rng, th)
     return C
 
 
@@ -927,7 +1071,7 @@ def spec(c, out, small_cache):
         return x == -1, "-1 (a is not a quadratic residue mod %d)" % n, site, cl
     if k == "lift":
         x = int(t[0])
-        return (x * x - c["a"]) % c["mod"] == 0, "x with x*x = a (mod %d)" % c["mod"], S_SQ + c["iop"], "precondition-holds"
+        return (x * x - c["a"]) % c["mod"] == 0, "x with x*x = a (mod %d)" % c["mod"], S_SQ + bop(c), "precondition-holds"
     if k == "twolinear":
         a, kk = c["a"], c["k"]; x = int(t[0]); kk = max(kk, 3)
         res = a % 8 in (0, 1, 4)
@@ -939,7 +1083,7 @@ def spec(c, out, small_cache):
         return a * a + b * b == c["p"], "a*a + b*b = p", S_SQ + "Brillhart", "p=1mod4"
     if k == "sos":
         a, b = ints(t[:2])
-        return (a * a + b * b - c["k"]) % c["p"] == 0, "a*a + b*b = k (mod p)", S_SQ + c["iop"].replace("sumofsquares", "sumofsquaresmodprime"), "k<0" if c["k"] < 0 else "k>=0"
+        return (a * a + b * b - c["k"]) % c["p"] == 0, "a*a + b*b = k (mod p)", S_SQ + bop(c).replace("sumofsquares", "sumofsquaresmodprime"), "k<0" if c["k"] < 0 else "k>=0"
     if k == "logp":
         r = int(t[0]); a, b = c["a"], c["b"]
         return r >= 0 and b ** r <= a < b ** (r + 1), "r with p^r <= a < p^(r+1)", "logp", "a>=p" if a >= b else "a<p"
@@ -951,16 +1095,24 @@ def spec(c, out, small_cache):
                 return None, "ORACLE SELF-CHECK FAILED legendre", k, ""
         return int(t[0]) == exp, exp, k, "symbol"
     if k == "isqrt":
-        exp = math.isqrt(c["a"]); return int(t[0]) == exp, exp, "sqrt", c["iop"]
+        exp = math.isqrt(c["a"]); return int(t[0]) == exp, exp, "sqrt", bop(c)
     if k == "isqrtrem":
-        s = math.isqrt(c["a"]); return ints(t[:2]) == [s, c["a"] - s * s], [s, c["a"] - s * s], "sqrtrem", c["iop"]
+        s = math.isqrt(c["a"]); return ints(t[:2]) == [s, c["a"] - s * s], [s, c["a"] - s * s], "sqrtrem", bop(c)
     if k == "iroot":
         s = iroot(c["a"], c["e"]); ex = 1 if s ** c["e"] == c["a"] else 0
         return ints(t[:2]) == [s, ex], [s, ex], "root", "n=%d" % c["e"]
+    if k == "h_gcd":
+        exp = math.gcd(c["a"], c["b"]); return int(t[0]) == exp, exp, "IntegerDom::gcd", "helper"
+    if k == "h_powmod":
+        exp = pow(c["a"], c["e"], c["n"]); return int(t[0]) == exp, exp, "IntegerDom::powmod", "helper"
+    if k in ("h_inv", "h_invin"):
+        x = int(t[0]); return (x * c["a"] - 1) % c["n"] == 0 and 0 <= x < c["n"], "the inverse of a modulo n in [0,n)", "IntegerDom::" + k[2:], "helper"
+    if k == "h_mod":
+        exp = c["a"] % c["n"]; return int(t[0]) == exp, exp, "IntegerDom::mod", "helper"
     raise KeyError(k)
 
 
-NO_MODEL = {"isqrt", "isqrtrem", "iroot"}
+NO_MODEL = {"isqrt", "isqrtrem", "iroot", "h_gcd", "h_powmod", "h_inv", "h_invin", "h_mod"}
 
 
 def model_line(c, out):
@@ -979,7 +1131,7 @@ def model_line(c, out):
         if sorted(zip(fs[0::2], fs[1::2])) != sorted((str(q), str(e)) for q, e in F.items()):
             return "BAD-FACTOR-SET"
         return "probable_prim_root %d %s %s" % (c["n"], L(fs), L(parts[1].split()))
-    if c["iop"] == "sumofsquares.mc":
+    if bop(c) == "sumofsquares.mc":
         return "sos_mc %d %d %s" % (c["k"], c["p"], L(out.split(";")[1].split() if ";" in out else []))
     if k == "phi":
         return "phi %d %s" % (c["n"], L(c.get("Lf", sorted(factor(c["n"])) if c["n"] > 0 else [])))
@@ -1006,7 +1158,7 @@ def model_line(c, out):
         p = list(F)[0] if F else 2
         return "prim_root %d %d %s %d" % (n, p, L(sorted(factor(p - 1)) if p > 2 else []), int(t[0]) % p)
     if k == "prim_root_of_prime":       # the .L form hands its own list over (in the order given)
-        return "prim_root_of_prime %d %s" % (c["n"], L(c["iargs"][1:] if c["iop"].endswith(".L") else sorted(factor(c["n"] - 1))))
+        return "prim_root_of_prime %d %s" % (c["n"], L(c["iargs"][1:] if bop(c).endswith(".L") else sorted(factor(c["n"] - 1))))
     if k == "sqrtp":
         dr = out.split(";")[1].split() if ";" in out else []
         return "sqrootmodprime %d %d %s" % (c["a"], c["p"], L(dr))
@@ -1020,15 +1172,15 @@ def model_line(c, out):
     if k == "sqrtn":
         return "sqrootmod %d %d %s" % (c["a"], c["n"], L(flat(c.get("F") or factor(c["n"]))))
     if k == "lift":
-        return c["iop"] + " " + " ".join(str(x) for x in c["iargs"])
+        return bop(c) + " " + " ".join(str(x) for x in c["iargs"])
     if k == "twolinear":
         return "sqroottwolinear %d %d" % (c["a"], c["k"])
     if k == "brillhart":
         return "brillhart %d" % c["p"]
     if k == "sos":
-        if c["iop"] == "sumofsquares.nonres":
+        if bop(c) == "sumofsquares.nonres":
             return "sos_nonres %d %d %d" % (c["k"], c["s"], c["p"])
-        if c["iop"] == "sumofsquares.noerh":
+        if bop(c) == "sumofsquares.noerh":
             kk, p = c["k"], c["p"]
             r0 = p % 4
             tr = kk % 4 if kk >= 0 else -((-kk) % 4)           # C++ % on a negative k truncates
@@ -1065,7 +1217,7 @@ def corresponds(c, iout, mout):
         return 0 <= xi and 0 <= xm
     if k == "probable_prim_root":
         return ti[0] == tm[0]
-    if k == "sos" and c["iop"] != "sumofsquares.noerh":
+    if k == "sos" and bop(c) != "sumofsquares.noerh":
         p = c["p"]
         return all((int(x) - int(y)) % p == 0 or (int(x) + int(y)) % p == 0 for x, y in zip(ti[:2], tm[:2]))
     n = {"brillhart": 2, "sos": 2, "isqrtrem": 2, "iroot": 2}.get(k, 1)
@@ -1339,10 +1491,18 @@ def main(tier, replay=None):
     dist = {}
     nb = 0
     crashed = set(crashed)
+    distinct_out = {(c["iop"], tuple(c["iargs"])): iout[i] for i, c in enumerate(cases) if not c.get("inplace") and i not in crashed}
+    nip = 0
     for i, c in enumerate(cases):
         if i in crashed:
             continue
         ok, exp, site, klass = spec(c, iout[i], cache)
+        if c.get("inplace"):
+            klass = "inplace:out=in" + c["inplace"]
+            nip += 1
+            ref = distinct_out.get((bop(c), tuple(c["iargs"])))
+            if ok and bop(c) in INPLACE_EXACT and ref is not None and ref.split(";")[0].split() != iout[i].split(";")[0].split():
+                ok = False; exp = "%s (the result of the same call with distinct objects)" % ref.split(";")[0].strip()
         key = c["kind"] + "/" + klass
         dist[key] = dist.get(key, 0) + 1
         chk.count((c["iop"], tuple(c["iargs"])), nontrivial=any(abs(x) > 1 for x in c["iargs"]))
@@ -1378,6 +1538,11 @@ def main(tier, replay=None):
     for c in cases:
         forms[c["iop"]] = forms.get(c["iop"], 0) + 1
     chk.cov["call_forms"] = dict(sorted(forms.items()))                # every public call form driven by the harness: cases per form
+    chk.cov["in_place_calls"] = {"cases": nip, "cases_per_form": IP.get("counts", {}),
+                                 "rule": "every function with an output parameter, the output being the same object as each input in turn (op@i: first output = "
+                                         "input i, op@@i: second output, 9 = the modulus object pk); deterministic grid of primes, prime powers, 2^k, composites "
+                                         "with 2..4 prime powers, residues and non-residues; verdict = oracle on the original arguments + model + (deterministic "
+                                         "functions) equality with the distinct-objects call"}
     chk.cov["structured_moduli"] = {"primes_c2^s+1": STRUCT.get("primes", []), "cases_per_group_and_form": STRUCT.get("counts", {}),
                                     "total": STRUCT.get("total", 0),
                                     "rule": "deterministic on every run and for every seed: least-c Proth primes c*2^s+1 for s around 32/64/128/192 (primality PROVED "
